@@ -6,21 +6,25 @@
     > 0 the client is listed, 0 not listed, < 0 unreadable or malformed. *)
 From Qv Require Import Common.Bytes Gen.GenSession Model.NetRead Model.Session Spec.SessionSpec Proofs.AuthSync Proofs.SessionProofs.
 
-(** a 2xx for a non-local recipient implies that the relay list matched or that an AUTH succeeded earlier on the same
-    connection (a note [NAuth name] with a non-empty name stands before it in the trace; the note is emitted exactly with
-    the reply 235).  In particular an unreadable or malformed list (o_relay < 0) and "not listed" (0) never allow
-    relaying on their own (fail closed), and neither RSET, HELO/EHLO, a failed AUTH nor a new transaction make a client
-    authenticated. *)
+(** ONE THEOREM FOR THE THREE ENTITLEMENTS.  A 2xx for a non-local recipient implies that the relay list matched, or that an
+    AUTH succeeded earlier on the same connection (a note [NAuth name] with a non-empty name stands before it in the trace;
+    the note is emitted exactly with the reply 235), or that tls_verify() accepted a TLS client certificate earlier on the same
+    connection (a note [NCert name] stands before it; the note is emitted exactly where is_authenticated() sets
+    xmitstat.tlsclient and relayclient = 1, and C01_cert_note_is_entitling_certificate below says what that means).  In
+    particular an unreadable or malformed list (o_relay < 0) and "not listed" (0) never allow relaying on their own (fail
+    closed), an error inside tls_verify() never does, and neither RSET, HELO/EHLO, STARTTLS, a failed AUTH nor a new
+    transaction make a client entitled. *)
 Theorem C01_remote_rcpt_needs_relay : forall o chunks pre addr post,
-  run_session o chunks = pre ++ Note (NRcpt addr RNotLocal) :: post -> (0 < o_relay o)%Z \/ has_auth pre = true.
+  run_session o chunks = pre ++ Note (NRcpt addr RNotLocal) :: post ->
+  (0 < o_relay o)%Z \/ has_auth pre = true \/ has_cert pre = true.
 Proof. exact remote_rcpt_needs_relay. Qed.
 Print Assumptions C01_remote_rcpt_needs_relay.
 
 (** the submission port (TCPLOCALPORT 587, [o_submission]) takes mail only from entitled clients: MAIL FROM gets its 250 there
-    only if the relay list matched the client or an AUTH succeeded earlier on the same connection - the same
-    is_authenticated() as for a remote recipient, with the same cache and the same fail-closed treatment of an unreadable list *)
+    only under the same three conditions - the same is_authenticated() as for a remote recipient, with the same cache and the
+    same fail-closed treatment of an unreadable list or a failing certificate check *)
 Theorem C01_submission_needs_entitlement : forall o chunks pre f post, o_submission o = true ->
-  run_session o chunks = pre ++ Note (NMail f) :: post -> (0 < o_relay o)%Z \/ has_auth pre = true.
+  run_session o chunks = pre ++ Note (NMail f) :: post -> (0 < o_relay o)%Z \/ has_auth pre = true \/ has_cert pre = true.
 Proof. exact submission_mail_needs_entitlement. Qed.
 Print Assumptions C01_submission_needs_entitlement.
 
@@ -42,8 +46,8 @@ Example C01_nonvacuous :
   existsb (fun e => match e with Note (NRcpt _ RNotLocal) => true | _ => false end)
     (run_session {| o_helo := fun _ => true; o_addr := fun _ _ => AP_ok [120]%N None RNotLocal;
                     o_ext := fun _ => Ext_ok 0 0 None; o_relay := 1%Z; o_mx := fun _ => 0; o_qq := fun _ => QQ_ok;
-                    o_databytes := 0%N; o_liphost := []; o_check2822 := false; o_authperm := false; o_auth := fun _ => Auth_multi; o_trace := fun _ _ _ _ _ _ => [];
-              o_submission := false; o_subm_date := []; o_subm_stamp := []; o_msgidhost := [] |}
+                    o_databytes := 0%N; o_liphost := []; o_check2822 := false; o_authperm := false; o_auth := fun _ => Auth_multi; o_trace := fun _ _ _ _ _ _ _ => [];
+              o_submission := false; o_subm_date := []; o_subm_stamp := []; o_msgidhost := []; o_tls := false; o_tlsverify := TV_no |}
         [ [72;69;76;79;32;120;13;10]; [77;65;73;76;32;70;82;79;77;58;60;97;62;13;10];
           [82;67;80;84;32;84;79;58;60;98;62;13;10] ]%N) = true.
 Proof. vm_compute. reflexivity. Qed.
@@ -53,8 +57,8 @@ Example C01_nonvacuous_auth :
   let o := {| o_helo := fun _ => true; o_addr := fun _ _ => AP_ok [120]%N None RNotLocal;
               o_ext := fun _ => Ext_ok 0 0 None; o_relay := 0%Z; o_mx := fun _ => 0; o_qq := fun _ => QQ_ok;
               o_databytes := 0%N; o_liphost := []; o_check2822 := false; o_authperm := true;
-              o_auth := fun _ => Auth_ok [117]%N; o_trace := fun _ _ _ _ _ _ => [];
-              o_submission := false; o_subm_date := []; o_subm_stamp := []; o_msgidhost := [] |} in
+              o_auth := fun _ => Auth_ok [117]%N; o_trace := fun _ _ _ _ _ _ _ => [];
+              o_submission := false; o_subm_date := []; o_subm_stamp := []; o_msgidhost := []; o_tls := false; o_tlsverify := TV_no |} in
   let ehlo := [69;72;76;79;32;120;13;10]%N in let auth := [65;85;84;72;32;80;76;65;73;78;32;120;13;10]%N in
   let mail := [77;65;73;76;32;70;82;79;77;58;60;97;62;13;10]%N in let rcpt := [82;67;80;84;32;84;79;58;60;98;62;13;10]%N in
   existsb (fun e => match e with Note (NRcpt _ RNotLocal) => true | _ => false end) (run_session o [ehlo; auth; mail; rcpt]) = true
@@ -66,8 +70,8 @@ Example C01_nonvacuous_submission :
   let o := {| o_helo := fun _ => true; o_addr := fun _ _ => AP_ok [120]%N None RNotLocal;
               o_ext := fun _ => Ext_ok 0 0 None; o_relay := 0%Z; o_mx := fun _ => 0; o_qq := fun _ => QQ_ok;
               o_databytes := 0%N; o_liphost := []; o_check2822 := false; o_authperm := true;
-              o_auth := fun _ => Auth_ok [117]%N; o_trace := fun _ _ _ _ _ _ => [];
-              o_submission := true; o_subm_date := []; o_subm_stamp := []; o_msgidhost := [] |} in
+              o_auth := fun _ => Auth_ok [117]%N; o_trace := fun _ _ _ _ _ _ _ => [];
+              o_submission := true; o_subm_date := []; o_subm_stamp := []; o_msgidhost := []; o_tls := false; o_tlsverify := TV_no |} in
   let ehlo := [69;72;76;79;32;120;13;10]%N in let auth := [65;85;84;72;32;80;76;65;73;78;32;120;13;10]%N in
   let mail := [77;65;73;76;32;70;82;79;77;58;60;97;62;13;10]%N in
   existsb (fun e => match e with Note (NMail _) => true | _ => false end) (run_session o [ehlo; auth; mail]) = true
